@@ -21,6 +21,9 @@ const Rule = "case = (grammar, one transformation): the grammar description line
 	"(bodies up to 8, nullable symbols anywhere, unit cycles, direct/indirect left recursion, common prefixes) " +
 	"+ terminals named like non-terminals ('X) + pipelines T1 then T2 for all ordered pairs (inputs that already " +
 	"carry primed / subscripted names) + bodies of 99-104 symbols (BIN's suffix limit) " +
+	"+ helper cases (the comparators / hashes / WriteString / Symbols / Equal / IsCNF / Verify / *Match of symbol.go, string.go, " +
+	"production.go, cfg.go on valid grammars, on grammars with the endmarker terminal or a terminal named like a non-terminal and " +
+	"on grammars broken in each way Verify() reports; each judged by an independent re-statement of its doc comment) " +
 	"+ corpus + (thorough) every grammar over S,A / a,b with 1-2 alternatives of length <= 2 per non-terminal; " +
 	"non-trivial = the transformation changed the grammar and L_k(G) has at least 3 sentences; " +
 	"distinct = distinct (grammar, op)"
@@ -238,6 +241,20 @@ func Exec(c hx.Case) hx.Result {
 			if inScope && line != ShowLang(g, k) {
 				bad(i, "", "sentences up to length %d differ after %s: %s vs %s", k, f[1], ShowLang(g, k), line)
 			}
+		case IsHelperOp(f[0]):
+			out, what, ts := HelperOp(g, f)
+			if out == "" {
+				res.Outs = append(res.Outs, "bad-op")
+				continue
+			}
+			res.Outs = append(res.Outs, out)
+			tags["op=helpers"] = true
+			for _, t := range ts {
+				tags[t] = true
+			}
+			if what != "" {
+				bad(i, "", "%s: %s", op, what)
+			}
 		default:
 			res.Outs = append(res.Outs, "bad-op")
 		}
@@ -317,6 +334,52 @@ func Malform(r *hx.Rand, g gx.G) gx.G {
 	case 3: // a unit production onto a declared non-terminal without productions
 		h.NonTerms = append(h.NonTerms, "Z")
 		h.Prods = append(h.Prods, gx.P{Head: hx.Pick(r, g.NonTerms), Body: []string{"Z"}})
+	}
+	return h
+}
+
+// MalformX breaks a valid grammar in one of the ways Verify() reports and the transformations are not defined on
+// (cases with such grammars carry helper ops only): start symbol not declared, head not declared, undeclared terminal
+// or undeclared non-terminal (^Z) in a body, no production for the start symbol, a non-terminal without production.
+func MalformX(r *hx.Rand, g gx.G, kind int) gx.G {
+	h := gx.G{Terms: append([]string{}, g.Terms...), NonTerms: append([]string{}, g.NonTerms...), Start: g.Start}
+	for _, p := range g.Prods {
+		h.Prods = append(h.Prods, gx.P{Head: p.Head, Body: append([]string{}, p.Body...)})
+	}
+	insert := func(w string) {
+		if len(h.Prods) == 0 {
+			h.Prods = append(h.Prods, gx.P{Head: hx.Pick(r, g.NonTerms)})
+		}
+		k := r.Intn(len(h.Prods))
+		b := h.Prods[k].Body
+		at := r.Intn(len(b) + 1)
+		h.Prods[k].Body = append(append(append([]string{}, b[:at]...), w), b[at:]...)
+	}
+	switch kind % 6 {
+	case 0:
+		h.Start = "Z"
+	case 1:
+		h.Prods = append(h.Prods, gx.P{Head: "Z", Body: []string{hx.Pick(r, g.Terms)}})
+	case 2:
+		insert("z")
+	case 3:
+		insert("^Z")
+	case 4:
+		var ps []gx.P
+		for _, p := range h.Prods {
+			if p.Head != g.Start {
+				ps = append(ps, p)
+			}
+		}
+		if len(ps) == 0 {
+			h.NonTerms = append(h.NonTerms, "Y")
+			h.Prods = append(h.Prods, gx.P{Head: "Y", Body: []string{hx.Pick(r, g.Terms)}})
+		} else {
+			h.Prods = ps
+		}
+	case 5:
+		h.NonTerms = append(h.NonTerms, "Y")
+		insert("z")
 	}
 	return h
 }
@@ -531,6 +594,31 @@ func Main(run *hx.Run) {
 		for n := 99; n <= 104; n++ {
 			lim.Do(run, "cnfbin", caseFor(LongBody(n, false), "long-body", "cnfbin", 0), Exec)
 			lim.Do(run, "cnf", caseFor(LongBody(n, true), "long-body", "cnf", 0), Exec)
+		}
+	}
+	{
+		// the helpers the transformations rest on: comparators (the orders the Model reproduces), hashes, WriteString,
+		// Symbols / Equal / IsCNF / Verify / AnyMatch / AllMatch / SelectMatch; on valid grammars (every third with a
+		// terminal named like a non-terminal) and on grammars broken in each of the ways Verify() reports
+		r := run.R.Fork("helpers")
+		for k := 0; k < run.Scale(40); k++ {
+			g := GenGrammar(r, Mixes[k%len(Mixes)])
+			if k%3 == 1 {
+				g = KeywordNames(r, g)
+			}
+			if k%4 == 2 {
+				g = WithEndmarker(g)
+			}
+			if k%2 == 1 {
+				g = MalformX(r, g, k/2)
+			}
+			ops := append(g.Lines(), HelperQueries(r, g)...)
+			if ok, _ := Valid(g); ok {
+				for _, op := range OpsFor(g) {
+					ops = append(ops, "eq "+op)
+				}
+			}
+			lim.Do(run, "helpers", hx.Case{Header: "comp=helpers mix=helpers", Ops: ops}, Exec)
 		}
 	}
 	{
